@@ -135,25 +135,25 @@ The refresh itself (`ClusterState::{calculate_new_topology, perform_tablets_main
 /-- Rack name on the Rust side of the case syntax (`topology.rs::rack_name`). -/
 def rackName (r : Nat) : String := "r" ++ Nat.repr r
 
-/-- A peer of the routing model with its address, as a `system.peers` row. The nodes of the correspondence run are
-rejected by the host filter (pool-less hook nodes): `accepted = false`. For such a node the `Node` object survives a
-refresh iff datacenter, rack and address are unchanged - the same rule as for an accepted, enabled one. -/
-def toPeer (p : Node × Nat) : TabletsRefresh.Peer :=
-  ⟨p.1.id, p.1.dc.map dcName, p.1.rack.map rackName, p.2, false⟩
+/-- A peer of the routing model - node, address, verdict of the host filter - as a `system.peers` row. (The nodes of
+the correspondence run are pool-less hook nodes rejected by the host filter: `accepted = false`; the theorems are about
+any verdicts, i.e. also the `(true, Some(node))` arms of `calculate_new_topology` that ordinary nodes take.) -/
+def toPeer (p : (Node × Nat) × Bool) : TabletsRefresh.Peer :=
+  ⟨p.1.1.id, p.1.1.dc.map dcName, p.1.1.rack.map rackName, p.1.2, p.2⟩
 
 /-- What happens to the cluster state between two requests, as far as routing is concerned. -/
 inductive StateOp where
   /-- tablet feedback: one tablet of table `spec` (`(keyspace, table)` names) -/
   | learn (spec : String × String) (first last : Int) (raw : List (Nat × Nat))
-  /-- a metadata refresh (`ClusterState::new_updated`) to these peers `(node, address)` -/
-  | refresh (peers : List (Node × Nat))
+  /-- a metadata refresh (`ClusterState::new_updated`) to these peers `((node, address), accepted by the host filter)` -/
+  | refresh (peers : List ((Node × Nat) × Bool))
 
 /-- The routing-relevant state: `known_nodes` and `locator.tablets` (C15's `CState`). -/
 abbrev RState := TabletsRefresh.CState
 
 /-- `ClusterState::new`: a refresh from the empty state (every peer gets a fresh `Node`; maintenance on an empty tablet
 map creates the entries of the tables of tablet-based keyspaces). -/
-def RState.init (keyspaces : List (String × Bool × List String)) (peers : List (Node × Nat)) : RState :=
+def RState.init (keyspaces : List (String × Bool × List String)) (peers : List ((Node × Nat) × Bool)) : RState :=
   TabletsRefresh.refresh TabletsRefresh.CState.init (peers.map toPeer) keyspaces
 
 def RState.step (keyspaces : List (String × Bool × List String)) (st : RState) : StateOp → RState
@@ -162,6 +162,18 @@ def RState.step (keyspaces : List (String × Bool × List String)) (st : RState)
 
 def RState.run (keyspaces : List (String × Bool × List String)) (st : RState) (ops : List StateOp) : RState :=
   ops.foldl (RState.step keyspaces) st
+
+/-- Keyspace / table names on the Rust side of the case syntax. -/
+def ksName (i : Nat) : String := "k" ++ Nat.repr i
+def tblName (j : Nat) : String := "t" ++ Nat.repr j
+
+/-- **The routing cluster of a state**: ring locator, keyspaces, liveness, sharders and peers as given (`base`, whose
+`peers` are the nodes of the state's last refresh), the tablet map = the state's, for the tables `(k<i>, t<j>)` the
+cluster knows of. -/
+def RCluster.ofState (base : RCluster) (st : RState) (declared : List (Nat × Nat)) : RCluster :=
+  { base with
+    tables := declared.filterMap (fun d =>
+      (Tablets.alGet (ksName d.1, tblName d.2) st.info.tables).map (fun t => (d, t.tablets))) }
 
 /-! ### the default policy on a `PlainSharded` replica set -/
 
